@@ -262,6 +262,15 @@ class Effects:
             if base is None:
                 return None
             root, fields = base
+            # field of a shallow copy is the very object the original holds in that field
+            if root[0] == "fresh" and not fields and isinstance(root[1], str):
+                bs_ = [b_ for b_ in (self.bindings(f).get(root[1]) or []) if not (isinstance(b_, tuple) and b_[0] == "aug")]
+                if len(bs_) == 1 and isinstance(bs_[0], ast.Call) and len(bs_[0].args) == 1:
+                    tgs_ = self.R.resolve_call(bs_[0], f, count=False)
+                    if tgs_ and tgs_[0].kind == "ext" and tgs_[0].name == "copy.copy":
+                        src_ = self.loc(bs_[0].args[0], f, depth + 1)
+                        if src_ is not None:
+                            return (src_[0], src_[1] + (e.attr,))
             # field of a fresh object built by a constructor aliases the ctor argument
             if root[0] == "fresh" and not fields:
                 cc = self.ctor_call_of(root[1], f)
@@ -442,6 +451,10 @@ class Effects:
             if al is None:
                 return None
             newloc = (al[0], al[1] + fields)
+        elif root[0] in ("global", "unknown"):
+            # module-level objects, and objects reached in a way the alias layer does not classify
+            # (`type(self).x = ..`): the effect is the same effect for every caller
+            newloc = eff.loc
         else:
             return None
         if newloc[0][0] == "fresh":
@@ -498,7 +511,7 @@ FRESH_EXT = {
     "collections.defaultdict", "sortedcontainers.SortedSet", "dict", "list", "set", "tuple", "frozenset",
     "bytes", "sorted", "eth_utils.toolz.merge", "eth_utils.toolz.valfilter", "eth_hash.auto.keccak",
     "eth_utils.keccak", "rlp.codec.encode_raw", "reversed", "iter", "map", "filter", "zip", "enumerate",
-    "range", "itertools.chain", "hexbytes.HexBytes", "str", "int", "bytearray",
+    "range", "itertools.chain", "hexbytes.HexBytes", "str", "int", "bytearray", "copy.copy",
 }
 
 
